@@ -28,6 +28,7 @@ class Variant:
     new: str
     desc: str
     count: int = 1  # occurrences of `old` expected (all are replaced)
+    patch: str = ""  # path of a unified diff to apply instead of the old/new replacement (sub-agents' changes, /verif/seeded)
 
 
 V = Variant
@@ -133,7 +134,39 @@ VARIANTS: list[Variant] = [
 ]
 
 
+def seeded_variants() -> list[Variant]:
+    """The sub-agents' confirmed changes (/verif/seeded/<id>/patch.diff) as regression variants: one per (change, check that
+    reports it), expecting the first rule of that check recorded in meta.json."""
+    out: list[Variant] = []
+    base = os.path.join(VERIF, "seeded")
+    if not os.path.isdir(base):
+        return out
+    for sid in sorted(os.listdir(base)):
+        mp = os.path.join(base, sid, "meta.json")
+        pp = os.path.join(base, sid, "patch.diff")
+        if not (os.path.exists(mp) and os.path.exists(pp)):
+            continue
+        try:
+            with open(mp) as fh:
+                meta = json.load(fh)
+        except Exception:
+            continue
+        caught = [c for c in meta.get("verification", {}).get("caught_by", []) if "@" not in c]
+        by_prop: dict[str, str] = {}
+        for c in caught:
+            prop, _, rule = c.partition(".")
+            by_prop.setdefault(prop, rule)
+        for prop, rule in sorted(by_prop.items()):
+            out.append(Variant(f"{sid}>{prop}", prop, rule, "", "", "", (meta.get("title") or sid)[:90], patch=pp))
+    return out
+
+
 def _apply(root: str, v: Variant) -> str | None:
+    if v.patch:
+        proc = subprocess.run(f"patch -p1 -s -d {root} < {v.patch}", shell=True, capture_output=True, text=True)
+        if proc.returncode:
+            return f"stale patch (does not apply to the current tree): {(proc.stdout + proc.stderr)[-120:]}"
+        return None
     p = os.path.join(root, v.file)
     with open(p, encoding="utf-8") as fh:
         s = fh.read()
@@ -151,14 +184,14 @@ def _apply(root: str, v: Variant) -> str | None:
 
 
 def _run_one(v: Variant, base: str) -> dict:
-    root = os.path.join(base, v.vid)
+    root = os.path.join(base, v.vid.replace(">", "_"))
     os.makedirs(root)
     shutil.copytree(os.path.join(REPO, "src"), os.path.join(root, "src"), ignore=shutil.ignore_patterns("__pycache__", "*.egg-info"))
     t0 = time.time()
     err = _apply(root, v)
     if err:
         shutil.rmtree(root, ignore_errors=True)
-        return {"variant": v.vid, "property": v.prop, "expect": f"{v.prop}.{v.rule}", "status": "not-applicable", "detail": err, "desc": v.desc}
+        return {"variant": v.vid, "property": v.prop, "expect": f"{v.prop}.{v.rule}", "status": "stale-patch" if v.patch else "not-applicable", "detail": err, "desc": v.desc}
     proc = subprocess.run([sys.executable, "-m", "ramlint", "check", v.prop, "--root", root], cwd=VERIF, capture_output=True, text=True, timeout=900)
     out = proc.stdout
     hit_rules = sorted({ln.split(" at ")[0].strip().split(".")[-1] for ln in out.splitlines() if ln.startswith(f"  {v.prop}.R")})
@@ -180,7 +213,7 @@ def _run_one(v: Variant, base: str) -> dict:
 
 
 def run(props: list[str], jobs: int = 16, attach_evidence: bool = False) -> int:
-    sel = [v for v in VARIANTS if not props or v.prop in props]
+    sel = [v for v in VARIANTS + seeded_variants() if not props or v.prop in props]
     if not sel:
         print("[ramlint] selftest: no variants selected")
         return 0
